@@ -444,19 +444,45 @@ func c13Pairing(p *load.Prog, r *oblig.Run, g *cg.Graph) {
 			// w resets the cache of ALL holders itself: a loop whose body calls a pure reset function of c (stores to the
 			// cache, reads no membership) - the pattern of AddIndividual / AddFamily
 			hsW := loopHeaders(w)
-			inv := func(cal *ssa.Function) bool {
+			pureReset := func(cal *ssa.Function) bool {
 				f := fx[cal]
 				return f != nil && f.cacheStores[c] && len(f.loads) == 0 && len(f.storeOnParam) == 0
 			}
+			// resetAll: a helper whose body is the reset loop (a loop calling a pure reset of c, no membership store)
+			resetAll := func(cal *ssa.Function) bool {
+				if cal == nil || len(cal.Blocks) == 0 || isWriter[cal] {
+					return false
+				}
+				if f := fx[cal]; f != nil && len(f.storeOnParam) > 0 {
+					return false
+				}
+				hsC := loopHeaders(cal)
+				for _, ci := range su.Calls(cal) {
+					if g := ci.Common().StaticCallee(); g != nil && pureReset(g) {
+						for _, h := range hsC {
+							if loopBlock(ci.Block(), h) {
+								return true
+							}
+						}
+					}
+				}
+				return false
+			}
+			inv := func(cal *ssa.Function) bool { return pureReset(cal) || resetAll(cal) }
 			has := false
 			for _, ci := range su.Calls(w) {
 				cal := ci.Common().StaticCallee()
-				if cal == nil || isWriter[cal] || cal == w || !inv(cal) {
+				if cal == nil || isWriter[cal] || cal == w {
 					continue
 				}
-				for _, h := range hsW {
-					if loopBlock(ci.Block(), h) {
-						has = true
+				if resetAll(cal) {
+					has = true
+				}
+				if pureReset(cal) {
+					for _, h := range hsW {
+						if loopBlock(ci.Block(), h) {
+							has = true
+						}
 					}
 				}
 			}
@@ -470,6 +496,9 @@ func c13Pairing(p *load.Prog, r *oblig.Run, g *cg.Graph) {
 			why := invalidationAfter(w, c, func(fn *ssa.Function) bool { return !isWriter[fn] && inv(fn) }, dir, func(*ssa.Store) bool { return false }, func(ci ssa.CallInstruction) bool {
 				cal := ci.Common().StaticCallee()
 				return cal != nil && isWriter[cal]
+			}, func(site ssa.Instruction) bool {
+				ci, ok := site.(ssa.CallInstruction)
+				return ok && resetAll(ci.Common().StaticCallee())
 			})
 			if why != "" {
 				o.Fail(fmt.Sprintf("%s changes the node membership through a writer that cannot invalidate the cache %s and resets that cache itself, but not on every path (%s): after a call that takes the other path the views read before keep returning the old relations", load.FuncName(w), c, strings.Replace(why, "the store at line", "the call at line", 1)))
@@ -540,7 +569,11 @@ func invalidationOnEveryPath(w *ssa.Function, c string, calleeInvalidates func(*
 // invalidationAfter: as invalidationOnEveryPath; mutationCall marks calls that change membership themselves (a
 // wrapper around a writer). An invalidation site inside a loop counts when the loop's header lies on the path (a loop
 // over all holders of the cache that runs zero times has nothing to invalidate).
-func invalidationAfter(w *ssa.Function, c string, calleeInvalidates func(*ssa.Function) bool, direct func(ssa.Instruction) bool, isMemberStore func(*ssa.Store) bool, mutationCall func(ssa.CallInstruction) bool) string {
+func invalidationAfter(w *ssa.Function, c string, calleeInvalidates func(*ssa.Function) bool, direct func(ssa.Instruction) bool, isMemberStore func(*ssa.Store) bool, mutationCall func(ssa.CallInstruction) bool, wholeReset ...func(ssa.Instruction) bool) string {
+	var wholeResetFn func(ssa.Instruction) bool
+	if len(wholeReset) > 0 {
+		wholeResetFn = wholeReset[0]
+	}
 	var sites []ssa.Instruction
 	var stores []ssa.Instruction
 	for _, b := range w.Blocks {
@@ -582,7 +615,7 @@ func invalidationAfter(w *ssa.Function, c string, calleeInvalidates func(*ssa.Fu
 						region[h] = true
 					}
 				}
-				if len(region) == 1 {
+				if len(region) == 1 && !(wholeResetFn != nil && wholeResetFn(site)) {
 					continue // for a wrapper only a reset loop over all holders compensates (a constructor's own zeroing does not)
 				}
 			}
